@@ -46,6 +46,7 @@ pub struct ScaleOut {
     pub max_depth: usize,
     pub build_ms: u128,
     pub collect_ms: u128,
+    pub collect_cpu_us: u64,
 }
 
 fn counters() -> [usize; 9] {
@@ -113,6 +114,52 @@ pub fn run(shape: &str, n: usize, seed: u64) -> ScaleOut {
             }
         }
     }
+    if shape == "hub" {
+        // object 0 owns every spoke and every spoke owns object 0: wide and shallow, many
+        // objects pending on the worklist at once
+        for i in 1..n {
+            let hub = hs[0].as_ref().unwrap();
+            let spoke = hs[i].as_ref().unwrap();
+            unsafe {
+                Rc::adopt_unchecked(hub, spoke);
+                Rc::adopt_unchecked(spoke, hub);
+            }
+            pairs.insert((0, i as u32));
+            pairs.insert((i as u32, 0));
+            edges += 2;
+            spoke.out.borrow_mut().push(Rc::clone(hub));
+        }
+        for i in 1..n {
+            let h = hs[i].take().unwrap();
+            hs[0].as_ref().unwrap().out.borrow_mut().push(h);
+        }
+        let build_ms = t0.elapsed().as_millis();
+        let x = hs[0].take().unwrap();
+        drop(hs);
+        let c0 = counters();
+        let t1 = std::time::Instant::now();
+        let cpu0 = thread_cpu_us();
+        drop(x);
+        let collect_cpu_us = thread_cpu_us() - cpu0;
+        let collect_ms = t1.elapsed().as_millis();
+        let c1 = counters();
+        return ScaleOut {
+            n,
+            pairs: pairs.len(),
+            loopbacks,
+            edges,
+            traces: c1[0] - c0[0],
+            pops: c1[1] - c0[1],
+            expansions: c1[2] - c0[2],
+            entries: c1[3] - c0[3],
+            group_members: c1[8] - c0[8],
+            drops: DROPS.load(Relaxed),
+            max_depth: MAX_DEPTH.load(Relaxed),
+            build_ms,
+            collect_ms,
+            collect_cpu_us,
+        };
+    }
     // ring edges: record all adoptions while every handle is alive ...
     for i in 0..n {
         let j = (i + 1) % n;
@@ -142,7 +189,9 @@ pub fn run(shape: &str, n: usize, seed: u64) -> ScaleOut {
     drop(hs);
     let c0 = counters();
     let t1 = std::time::Instant::now();
+    let cpu0 = thread_cpu_us();
     drop(x);
+    let collect_cpu_us = thread_cpu_us() - cpu0;
     let collect_ms = t1.elapsed().as_millis();
     let c1 = counters();
     ScaleOut {
@@ -159,10 +208,34 @@ pub fn run(shape: &str, n: usize, seed: u64) -> ScaleOut {
         max_depth: MAX_DEPTH.load(Relaxed),
         build_ms,
         collect_ms,
+        collect_cpu_us,
     }
 }
 
 static mut LAST_VALUE: *const Big = std::ptr::null();
+
+#[repr(C)]
+struct Timespec {
+    tv_sec: i64,
+    tv_nsec: i64,
+}
+#[cfg(not(miri))]
+extern "C" {
+    fn clock_gettime(clk: i32, ts: *mut Timespec) -> i32;
+}
+
+/// CPU time consumed by the calling thread, in microseconds (0 under Miri).
+pub fn thread_cpu_us() -> u64 {
+    #[cfg(not(miri))]
+    unsafe {
+        let mut ts = Timespec { tv_sec: 0, tv_nsec: 0 };
+        // CLOCK_THREAD_CPUTIME_ID = 3 on Linux
+        if clock_gettime(3, &mut ts) == 0 {
+            return ts.tv_sec as u64 * 1_000_000 + ts.tv_nsec as u64 / 1000;
+        }
+    }
+    0
+}
 
 pub fn run_on_small_stack(shape: String, n: usize, seed: u64, stack_kib: usize) -> Result<ScaleOut, String> {
     let h = std::thread::Builder::new()
